@@ -456,10 +456,7 @@ impl ConvexCell<WithoutFaces> {
         let mut num_v = self.vertices.len();
         let mut num_r = 0;
         while i < num_v {
-            let vertex = &self.vertices[i];
-            let snap_error = vertex.snap_error
-                + p.snap_error(vertex.loc, self.loc, simulation_boundary.grid_spacing);
-            let mut clip = p.clip_with_error_factor(vertex.loc, vertex.error_factor, snap_error);
+            let mut clip = self.filter_decision(&self.vertices[i], &p, simulation_boundary);
             if clip == 0. {
                 // Do the equivalent in-sphere test to determine whether a vertex is clipped
                 let dual = self.vertices[i].dual;
@@ -535,6 +532,25 @@ impl ConvexCell<WithoutFaces> {
             }
             self.update_safety_radius();
         }
+    }
+
+    /// The decision of the floating point filter on whether `vertex` is clipped by `p`: `-1.`
+    /// (clipped), `1.` (kept) or `0.` when the exact predicate must decide.
+    pub(super) fn filter_decision(
+        &self,
+        vertex: &Vertex,
+        p: &HalfSpace,
+        simulation_boundary: &SimulationBoundary,
+    ) -> f64 {
+        if vertex.error_factor > Vertex::MAX_ERROR_FACTOR {
+            // The location of a vertex on (nearly) linearly dependent planes is not known: it
+            // was put somewhere on the edge it was created on. Only the exact predicate can
+            // decide on which side of a plane it lies consistently with its neighbours.
+            return 0.;
+        }
+        let snap_error =
+            vertex.snap_error + p.snap_error(vertex.loc, self.loc, simulation_boundary.grid_spacing);
+        p.clip_with_error_factor(vertex.loc, vertex.error_factor, snap_error)
     }
 
     fn compute_boundary(boundary: &mut SimpleCycle, vertices: &mut [Vertex]) {
